@@ -74,7 +74,9 @@ func c05Program(r *Rand) *ProgCase {
 	var labels []string
 	n := r.Range(2, 14)
 	silent := []func(i int) PStmt{
-		func(i int) PStmt { return PStmt{K: "equ", Label: fmt.Sprintf("E%d", i), Text: spellInt(int64(r.Intn(1000)), r.Intn(2)), Tag: "EQU"} },
+		func(i int) PStmt {
+			return PStmt{K: "equ", Label: fmt.Sprintf("E%d", i), Text: spellInt(int64(r.Intn(1000)), r.Intn(2)), Tag: "EQU"}
+		},
 		func(i int) PStmt { return PStmt{K: "global", Text: fmt.Sprintf("_g%d", i), Tag: "GLOBAL"} },
 		func(i int) PStmt { return PStmt{K: "extern", Text: fmt.Sprintf("_x%d", i), Tag: "EXTERN"} },
 		func(i int) PStmt { return PStmt{K: "raw", Text: "[INSTRSET \"i486p\"]", Tag: "bracket"} },
